@@ -52,6 +52,14 @@ Section C02.
     sched_result rl steps trigger name s2 = Some w2 -> w1 = w2.
   Proof. exact (two_schedules_thm fn_sem). Qed.
 
+  (* the quantifier is not empty: every well-formed workflow has a complete
+     schedule (listed order, items in source order) *)
+  Theorem C02_schedule_exists : forall name steps trigger,
+    well_formed steps ->
+    sched_result rl steps trigger name (listed_schedule rl trigger steps []) =
+    Some (run_workflow fn_sem name None steps trigger).
+  Proof. exact (schedule_exists_thm fn_sem). Qed.
+
   (* "A forEach step returns its results in source-list order, each invocation
      having received exactly its own item": under any schedule the step's
      outcome is assembled from the evaluations on item 0, item 1, … in that
@@ -139,6 +147,7 @@ Qed.
 Print Assumptions C02_complete_unique.
 Print Assumptions C02_result_schedule_independent.
 Print Assumptions C02_two_schedules.
+Print Assumptions C02_schedule_exists.
 Print Assumptions C02_foreach_order_and_items.
 Print Assumptions C02_foreach_values_in_source_order.
 Print Assumptions C02_foreach_failure_is_error.
